@@ -203,7 +203,8 @@ def export_stmts(node, cx):
     if isinstance(node, N.CodeBlock):
         out = []
         for ast in node.get_ast_nodes:
-            txt = str(ast)
+            # tofortran() (what the writer uses) includes a statement label
+            txt = ast.tofortran() if hasattr(ast, "tofortran") else str(ast)
             if txt.strip().lower().startswith(("print", "write")):
                 continue
             out.append(cx.cb(txt))
@@ -315,6 +316,21 @@ def property_on_source(src):
     return v, d, out
 
 
+NAME_CASE_PROBE = """program p
+  implicit none
+  integer :: i, j, t
+  t = 0
+  Outer: do i = 1, 4
+    do j = 1, 4
+      if (j > i) exit OUTER
+      t = t + j
+    end do
+  end do Outer
+  print *, t
+end program p
+"""
+
+
 class Case:
     pass
 
@@ -343,6 +359,9 @@ def work(p):
         rts2 = None
         err = f"{type(e).__name__}: {e}"[:300]
     for r in p.routines:
+        if not r.modelled:
+            impl[r.name] = impl2[r.name] = (None, "routine holds a construct outside the model (DO WHILE)", None)
+            continue
         low = r.model_low
         fresh = [int(x) for x in re.findall(r"\(loop (\d+)", low) if int(x) >= 1000]
         tags = [int(x) for x in re.findall(r"\(cb (\d+)\)", low)]
@@ -410,10 +429,16 @@ def run(chk):
                            "expected": "re-written program compiles and prints the same values as the original"})
     chk.cov["corpus_programs"] = ncorpus
 
+    # does the live reader compare construct names case-sensitively?  (known finding; the generator's expected
+    # Loop-vs-CodeBlock structure follows the code, the behavioural failure is caught by gfortran either way)
+    st, out, _ = rewrite(NAME_CASE_PROBE)
+    c01_gen.NAME_CASE_SENSITIVE = (st == "ok" and "do i = 1, 4, 1" in out)
+    chk.cov["construct_name_check_case_sensitive"] = c01_gen.NAME_CASE_SENSITIVE
+
     programs = []
     for n in range(nprog):
         names = minif.Names()
-        focus = [None, None, "where", "select"][n % 4]
+        focus = [None, "unsupported", "where", "select", None][n % 5]
         programs.append(c01_gen.gen_program(rng, names, focus))
 
     # pass 1: the model's lowering of every routine (order of fresh loop variables / CodeBlock tags)
@@ -517,11 +542,14 @@ def run(chk):
             invalid += 1
             chk.cov.setdefault("invalid_generated", []).append(detail[-300:])
         elif verdict == "fail":
-            classes = set()
+            wclasses = set()
             for r in c.p.routines:
-                classes |= where_classes(r.ast)
+                wclasses |= where_classes(r.ast)
+            # classes the generator knowingly produced (construct-name spelling, EXIT from a named IF)
+            declared = {f[6:] for f in c.p.feats if f.startswith("known:")}
+            classes = wclasses | declared
             known_ids = {e["id"] for e in common.known_findings("C01")}
-            if c.agree and not c.good and classes and classes <= known_ids:
+            if c.agree and classes and classes <= known_ids and (declared or not c.good):
                 stats["known_class_failures"] += 1      # the committed model reproduces it, classifier accepts it
                 continue
             chk.violation({"kind": "failing-input", "source": c.p.source, "rewritten": c.out, "observed": detail,
